@@ -99,6 +99,11 @@ func cloneContext(src *ReceiveContext) *ReceiveContext {
 	dst.sender = src.sender
 	dst.self = src.self
 	dst.response = src.response
+	// dst comes from the pool and may still carry the responseClosed flag of
+	// the last Ask it served (reset does not clear it): without copying the
+	// source's state the clone of an unanswered Ask would reject its own
+	// reply in Response
+	dst.responseClosed.Store(src.responseClosed.Load())
 	dst.requestID = src.requestID
 	dst.requestReplyTo = src.requestReplyTo
 	dst.err = src.err
